@@ -17,8 +17,8 @@ BOUNDS = {
     "quick": dict(processes="sysenv + 2", flows="every multiset of 1..2 flows and every third multiset of 3 flows over the 6 ordered process pairs (parallel and opposing included)",
                   flow_dims="3 rotating assignments of dimension subsets/orders from {t,a,b}", stocks="none / at p1 / at sysenv / without process / two",
                   modes="raise_error x {explicit symbolic tolerance, default tolerance}", lengths="t2 a2 b2"),
-    "thorough": dict(processes="sysenv + 3", flows="multisets over 12 ordered pairs: all of size <= 2, every third of size 3, every 29th of size 4", flow_dims="4 assignments", stocks="as quick + stock at p2",
-                     modes="as quick", lengths="t2 a2 b2"),
+    "thorough": dict(processes="sysenv + 3", flows="multisets over 12 ordered pairs: all of size <= 2, every 9th of size 3, every 60th of size 4", flow_dims="3 assignments", stocks="as quick + stock at p2",
+                     modes="two of the four per (graph, stocks), rotating", lengths="t2 a2 b2"),
 }
 OPTS = {"quick": dict(shadow_every=40, max_paths=600, timeout_ms=40000), "thorough": dict(shadow_every=300, max_paths=600, timeout_ms=30000)}
 LENS = dict(t=2, a=2, b=2)
@@ -39,11 +39,11 @@ def configs(tier, seed):
     procs = ["sysenv", "p1", "p2"] if tier == "quick" else ["sysenv", "p1", "p2", "p3"]
     fsets = _flowsets(procs, 3 if tier == "quick" else 4)
     if tier == "thorough":
-        fsets = [f for i, f in enumerate(fsets) if len(f) < 3 or (len(f) == 3 and i % 3 == 0) or (len(f) == 4 and i % 29 == 0)]
+        fsets = [f for i, f in enumerate(fsets) if len(f) < 3 or (len(f) == 3 and i % 9 == 0) or (len(f) == 4 and i % 60 == 0)]
     else:
         fsets = [f for i, f in enumerate(fsets) if len(f) < 3 or i % 3 == 0]
     stockcfgs = [[], ["p1"], ["sysenv"], [None], ["p1", None]] + ([["p2", "p1"]] if tier == "thorough" else [])
-    nrot = 3 if tier == "quick" else 4
+    nrot = 3
     i = 0
     for fs in fsets:
         for rot in range(nrot):
@@ -51,7 +51,7 @@ def configs(tier, seed):
             for sc in stockcfgs:
                 i += 1
                 # modes rotate so that every (graph, stocks) sees at least two of the four and every mode sees every graph shape
-                for m in ([(i + rot) % 4, (i + rot + 2) % 4] if tier == "quick" else range(4)):
+                for m in [(i + rot) % 4, (i + rot + 2) % 4]:
                     raise_error, default_tol = bool(m & 1), bool(m & 2)
                     key = "mb/" + "+".join(f"{a}>{b}:{d or '-'}" for (a, b), d in zip(fs, fdims)) + "/stocks=" + ",".join(str(s) for s in sc) + f"/raise={int(raise_error)}/deftol={int(default_tol)}"
                     out.append(dict(h="mass_balance", op=f"m{m}", key=key, procs=procs + (["idle"] if (i % 5 == 0) else []), flows=[list(p) for p in fs], fdims=fdims,
